@@ -508,31 +508,51 @@ def check_casts(prog, ctx):
         ctx.check(ok, rid, where, node, src(node)[:100],
                   f"{kind} in {q}: " + (allowed[1] if ok else "cast-like construct outside the confirmed table "
                                         "(element type or imaginary part of block data may be lost)"))
-    ctx.minimum(rid, 14, "confirmed cast inventory")
+    ctx.minimum(rid, 8, "cast inventory (fourteen sites on the pinned tree; the floor only guards against a rule that matches nothing)")
 
 
 def check_witness(prog, ctx):
+    """R20.3 by evaluation: dtype / backend of an array, a fermionic array and a block vector are what the backend says about one of
+    the STORED blocks (never a constant, never a fresh array)."""
+    from engine.absarray import STok, shaped_evaluator
+    from engine.absops import PYERR, TABLES, Spec, World
+    from engine.minieval import Obj, Raised, Unsupported
+
     rid = "R20.3"
     bb = prog.cls("BlockBase")
-    for name, libfn in (("dtype", "ar.get_dtype_name"), ("backend", "ar.infer_backend")):
+    w = World(prog)
+    t = TABLES["U1"]
+    samples = {
+        "AbelianArray": lambda: Spec("U1", (False, True), 0, (t[0], t[0]), drop="first").build(w),
+        "FermionicArray": lambda: Spec("U1", (False, True), 0, (t[0], t[0]), fermionic=True, signs=1).build(w),
+        "BlockVector": lambda: Obj(prog.cls("BlockVector"), {"_blocks": {c: STok(("v", c), (d,)) for c, d in t[0].items()}}),
+    }
+    for name, libfn in (("dtype", "ar.get_dtype_name"), ("backend", "ar.infer_backend"), ("get_any_array", None)):
         f = bb.methods.get(name)
-        ctx.need(f is not None and f.is_property, f"BlockBase.{name} property vanished")
-        rets = [n for n in walk_own(f.node) if isinstance(n, ast.Return)]
-        ok = len(rets) == 1 and isinstance(rets[0].value, ast.Call) and src(rets[0].value.func) == libfn \
-            and len(rets[0].value.args) == 1 and src(rets[0].value.args[0]) == "self.get_any_array()"
-        ctx.check(ok, rid, f, f.node, src(rets[0]) if rets else "no return",
-                  f"BlockBase.{name} is computed from a block ({libfn}(self.get_any_array()))")
-    g = bb.methods.get("get_any_array")
-    ctx.need(g is not None, "get_any_array vanished")
-    rets = [n for n in walk_own(g.node) if isinstance(n, ast.Return)]
-    ok = len(rets) == 1 and src(rets[0].value).startswith("next(iter(self._blocks.values())")
-    ctx.check(ok, rid, g, g.node, src(rets[0]) if rets else "", "the witness is a stored block (first value of the block table)")
+        ctx.need(f is not None, f"BlockBase.{name} vanished")
+        for cname, mk in samples.items():
+            x = mk()
+            stored = list(x.fields["_blocks"].values())
+            ev = shaped_evaluator(prog, extra={"ar.get_dtype_name": lambda a_: ("dtype of", a_), "ar.infer_backend": lambda a_: ("backend of", a_)})
+            m = prog.lookup_method(x.cls, name)
+            try:
+                r = ev.call(m, [], {}, self_obj=x)
+            except Unsupported as e:
+                raise AnalysisError(f"{cname}.{name} outside the evaluable sub-language: {e}")
+            except (Raised,) + PYERR as e:
+                ctx.check(False, rid, f, f.node, f"{cname}.{name}: fails", f"{cname}.{name} fails on a non-empty array: {type(e).__name__}: {e}")
+                continue
+            wit = r[1] if libfn is not None and isinstance(r, tuple) and len(r) == 2 and r[0].endswith(" of") else (r if libfn is None else None)
+            ok = any(wit is b_ for b_ in stored)
+            ctx.check(ok, rid, f, f.node, f"{cname}.{name}",
+                      f"{cname}.{name} " + (f"is {libfn} of one of the stored blocks" if libfn else "returns one of the stored blocks")
+                      + ("" if ok else f" — got {r!r}"[:120]))
     # subclasses must not override the witnesses with constants
     for c in prog.subclasses(bb, strict=True):
         for name in ("dtype", "backend", "get_any_array"):
             ctx.check(name not in c.methods, rid, (c.file, c.name), c.node, f"{c.name}.{name} override",
                       f"{c.name} inherits {name} from BlockBase")
-    ctx.minimum(rid, 3, "dtype, backend, get_any_array")
+    ctx.minimum(rid, 9, "dtype, backend, get_any_array on arrays, fermionic arrays, block vectors")
 
 
 def check_witness_gates(prog, ctx):
